@@ -49,8 +49,14 @@ def replay(path):
     for o in d.get('verifier_output', []):
         print(o)
     if d.get('witness'):
-        import witness
-        return witness.replay(d)
+        import oracles
+        w = d['witness']
+        print('replaying bounded witness with oracle %s: %s' % (w['oracle'], w['failing_input']))
+        trust, res = oracles.run([w['oracle']], deep=('--deep' in (w.get('cmd') or '')))
+        bad = [b for b in res if b['status'] != 'PASS']
+        for b in res:
+            print(b['status'], b['check'], b['detail'])
+        return 1 if bad else 0
     print('no-failing-input-found (no concrete input to replay); re-running the obligation:')
     os.execv(os.path.join(VERIF, 'check'), [os.path.join(VERIF, 'check'), d['property'], '--unit', d['unit']])
 
@@ -142,19 +148,41 @@ def decide(pid, prop, tier, seed, results, undecided, t0, load_expect, findings)
                     lines.append('NOTE obligation %s failed once but was discharged with a larger resource limit: treated as discharged' % k)
                     n_dis += 1
     exit_code = 0
+    import oracles
+    bounded = []
+    oracle_fail = None
+    need_oracles = bool(confirmed) or (bool(undec) and not confirmed) or tier == 'thorough'
+    if need_oracles and oracles.PROP_ORACLES.get(pid):
+        try:
+            trust, bounded = oracles.run(oracles.PROP_ORACLES[pid], deep=(tier == 'thorough'))
+            fails = [b for b in bounded if b['status'] == 'FAIL']
+            if trust and fails:
+                oracle_fail = fails[0]
+        except Exception as e:  # the bounded search never turns a pass into a failure by crashing
+            bounded = [{'check': 'oracles', 'status': 'ERROR', 'detail': repr(e)}]
     for r, k in confirmed:
         wit = None
-        try:
-            import witness
-            wit = witness.find(pid, r, k)
-        except Exception as e:  # witness search never influences the verdict
-            wit = None
+        if oracle_fail:
+            wit = {'kind': 'bounded-search', 'oracle': oracle_fail['check'], 'failing_input': oracle_fail['detail'], 'cmd': oracle_fail.get('cmd'),
+                   'note': 'found by exhaustive execution of the real crate on a small universe; replay with ./check %s --replay <this file>' % pid}
         path = write_replay(pid, r, k, r.failed[k], wit, True)
         tail = '' if wit else ' no-failing-input-found'
         lines.append('VIOLATION property=%s replay=%s obligation=%s%s' % (pid, path, k, tail))
         exit_code = 1
     for k, f in known:
         lines.append('KNOWN-FINDING: property=%s %s' % (pid, f['what']))
+    if oracle_fail and not confirmed:
+        # the deductive route is undecided (or thorough tier) but executing the real code on the bounded universe shows a concrete failing input
+        os.makedirs(os.path.join(VERIF, 'replays'), exist_ok=True)
+        path = os.path.join(VERIF, 'replays', '%s-bounded-%s.json' % (pid, safe(oracle_fail['check'])))
+        json.dump({'property': pid, 'unit': None, 'obligation': 'bounded:' + oracle_fail['check'], 'obligation_kind': 'bounded stand-in (exhaustive execution of the real crate on a small universe; not a proof)',
+                   'clause_text': oracle_fail.get('bound'), 'verifier': 'verus undecided; bounded oracle decided',
+                   'status': 'the deductive check is undecided on this tree (%s); the bounded stand-in finds a concrete failing input' % ('; '.join(m[:200] for _, m in undec[:2]) or 'thorough tier'),
+                   'verifier_output': ['%s: %s' % (n, m[:1500]) for n, m in undec[:3]],
+                   'witness': {'kind': 'bounded-search', 'oracle': oracle_fail['check'], 'failing_input': oracle_fail['detail'], 'cmd': oracle_fail.get('cmd')}}, open(path, 'w'), indent=1)
+        lines.append('VIOLATION property=%s replay=%s obligation=bounded:%s' % (pid, path, oracle_fail['check']))
+        exit_code = 1
+        confirmed.append((None, 'bounded:' + oracle_fail['check']))
     if undec and exit_code == 0:
         exit_code = 2
     for n, m in undec:
@@ -179,6 +207,8 @@ def decide(pid, prop, tier, seed, results, undecided, t0, load_expect, findings)
             'vacuity_probe': 'refuted as required in every unit' if results and not undecided else 'see undecided',
             'known_findings_reported': [k for k, _ in known],
             'undecided': ['%s: %s' % (n, m[:300]) for n, m in undec],
+            'bounded': [{'check': b['check'], 'status': b['status'], 'bound': b.get('bound', ''), 'detail': b['detail'][:300]} for b in bounded],
+            'bounded_note': 'bounded stand-ins are exhaustive executions of the real crate on small universes; they are never counted in obligations/discharged',
         },
         'assumptions': extras_assumptions(results),
         'wall_s': round(wall, 2),
